@@ -335,7 +335,15 @@ func (c *Ctx) prefixTest(call *ssa.Call, env Env) (string, string, bool) {
 		if cut, isC := ex.Tuple.(*ssa.Call); isC && cut.Call.StaticCallee() != nil && cut.Call.StaticCallee().String() == "strings.CutPrefix" {
 			if k0, isK0 := cut.Call.Args[1].(*ssa.Const); isK0 && k0.Value != nil && k0.Value.Kind() == constant.String {
 				// only behind the edge on which the cut succeeded is the remainder "subject without p0"
-				behind, _, n := c.Guard(call.Parent(), env, &GCheck{Name: "CutPrefix found the prefix", NoDescend: true, MatchCall: func(c *Ctx, cl *ssa.Call, env Env) bool { return cl == cut }}, func(in ssa.Instruction) bool { return in == ssa.Instruction(call) })
+				// (or on which the subject is empty: the remainder of an unsuccessful cut is the subject itself, "" has no
+				// non-empty prefix, and neither has "" + anything the test looks for)
+				subj := c.Path(cut.Call.Args[0], env)
+				behind, _, n := c.Guard(call.Parent(), env, anyOf("CutPrefix found the prefix, or the subject is empty",
+					&GCheck{Name: "CutPrefix found the prefix", NoDescend: true, MatchCall: func(c *Ctx, cl *ssa.Call, env Env) bool { return cl == cut }},
+					cmpAccept(`subject == ""`, token.EQL, pathIs(subj), pathIs(`""`))), func(in ssa.Instruction) bool { return in == ssa.Instruction(call) })
+				if pre == "" {
+					behind = false
+				}
 				if behind && n > 0 {
 					return c.Path(cut.Call.Args[0], env), constant.StringVal(k0.Value) + pre, true
 				}
@@ -387,7 +395,44 @@ func (c *Ctx) checkPointerMember(rule string, V *ssa.Function, K, P string, hp *
 			}
 		}
 	})
-	ss := c.sites(V, nil, hp, 0)
+	// the same alternatives as checks of their own, so that a per-operation helper (`validateOperationFrom(op)`) which
+	// lets an operation through only across one of them counts as a check site at its call
+	isMemberLookup := func(c *Ctx, v ssa.Value, env Env) bool {
+		lk, ok := v.(*ssa.Lookup)
+		if !ok {
+			return false
+		}
+		k, isK := lk.Index.(*ssa.Const)
+		return isK && unquote(c.Path(k, nil)) == K
+	}
+	absent := &GCheck{Name: fmt.Sprintf("member %q absent", K), BoolFalse: true, NoDescend: true, MatchOK: isMemberLookup}
+	null := &GCheck{Name: fmt.Sprintf("member %q null", K), NoDescend: true, MatchCmp: func(c *Ctx, b *ssa.BinOp, env Env) (bool, bool) {
+		if b.Op != token.EQL && b.Op != token.NEQ {
+			return false, false
+		}
+		for _, side := range [][2]ssa.Value{{b.X, b.Y}, {b.Y, b.X}} {
+			k, isK := side[1].(*ssa.Const)
+			ex, isEx := side[0].(*ssa.Extract)
+			if !isK || !k.IsNil() || !isEx || ex.Index != 0 {
+				continue
+			}
+			if isMemberLookup(c, ex.Tuple, env) {
+				return true, b.Op == token.EQL
+			}
+		}
+		return false, false
+	}}
+	ssOwn := c.sites(V, nil, hp, 0)
+	ss := c.sites(V, nil, anyOf(hp.Name, hp, absent, null), 0)
+	if len(ssOwn) == 0 {
+		// the pointer test itself must exist somewhere: count the sites of the plain check in the helpers
+		for _, h := range c.helpersOf(V, 2) {
+			ssOwn = append(ssOwn, c.sites(h, nil, hp, 0)...)
+		}
+		if len(ssOwn) == 0 {
+			ss = nil
+		}
+	}
 	for _, s := range ss {
 		for _, e := range s.cut {
 			cut[e] = true
